@@ -2,6 +2,7 @@ package harness
 
 import (
 	"bufio"
+	"context"
 	"encoding/json"
 	"io"
 	"net"
@@ -11,6 +12,7 @@ import (
 	"testing"
 	"time"
 
+	"github.com/gammazero/nexus/v3/client"
 	"github.com/gammazero/nexus/v3/router"
 	"github.com/gammazero/nexus/v3/transport/serialize"
 	"github.com/gammazero/nexus/v3/wamp"
@@ -32,6 +34,8 @@ type SrvInput struct {
 	Sern   int      `json:"sern"`
 	Rsv    bool     `json:"rsv"`
 	Len    int      `json:"len"`
+	Scheme string   `json:"scheme"` // op cconnect: the nexus client connects with this URL scheme ...
+	Ser    string   `json:"ser"`    // ... and this serialization
 }
 
 type SrvScenario struct {
@@ -48,6 +52,7 @@ type SrvEvent struct {
 	Limit   int      `json:"limit"`
 	Origins string   `json:"origins"`
 	In      SrvInput `json:"in"`
+	Kind    string   `json:"kind"`
 	Status  int      `json:"status"`
 	Proto   string   `json:"proto"`
 	Reply   string   `json:"reply"`
@@ -186,8 +191,36 @@ func runSrv(enc *json.Encoder, sc *SrvScenario) {
 		return replyName(rm, derr), "", false
 	}
 	for _, in := range sc.Steps {
-		ev := SrvEvent{Ev: "step", Scn: sc.ID, In: in}
+		ev := SrvEvent{Ev: "step", Scn: sc.ID, In: in, Kind: sc.Kind}
 		switch in.Op {
+		case "cconnect":
+			// the nexus client library is the connecting side
+			ctx, cancel := context.WithTimeout(context.Background(), srvWait)
+			cfg := client.Config{Realm: "srv.realm", ResponseTimeout: srvWait, Logger: discardLog,
+				Serialization: map[string]serialize.Serialization{"json": serialize.JSON, "msgpack": serialize.MSGPACK, "cbor": serialize.CBOR}[in.Ser]}
+			cl, err := client.ConnectNet(ctx, in.Scheme+"://"+addr+"/", cfg)
+			cancel()
+			if err != nil {
+				ev.Reply, ev.Closed = "ERROR", true
+				break
+			}
+			got := make(chan struct{}, 1)
+			ev.Reply = "NOTHING"
+			if err := cl.Subscribe("srv.topic", func(*wamp.Event) {
+				select {
+				case got <- struct{}{}:
+				default:
+				}
+			}, nil); err == nil {
+				if err := cl.Publish("srv.topic", wamp.Dict{"acknowledge": true, "exclude_me": false}, wamp.List{"x"}, nil); err == nil {
+					select {
+					case <-got:
+						ev.Reply = "EVENT"
+					case <-time.After(srvWait):
+					}
+				}
+			}
+			_ = cl.Close()
 		case "upgrade":
 			d := websocket.Dialer{Subprotocols: in.Offers, HandshakeTimeout: srvWait}
 			h := http.Header{}
